@@ -1,6 +1,7 @@
 (* Proofs about Model/Scalars.v *)
 From Coq Require Import List String Ascii ZArith Bool Lia.
-From AC Require Import Base.Strs Base.Sexp Base.Json Gql.Coerce Model.Args Model.Convert Model.Scalars.
+From AC Require Import Base.Strs Base.Sexp Base.Json Gql.Coerce Model.Args Model.Convert Model.Scalars
+     Proofs.ConvertP.
 Import ListNotations.
 Local Open Scope string_scope.
 
@@ -89,15 +90,68 @@ Section S.
     - simpl in *. eapply IH; eauto.
   Qed.
 
-  (* top-level arguments: serialize(<whole argument>) is right exactly for T! and for types without serialize *)
-  Lemma serialize_args_guarded t v log :
-    g_f10 S t = true -> occ_ser S t false v = Some log -> arg_log S t v = log.
+  (* top-level arguments (since /repo d163d56): the generated expression calls serialize exactly on the
+     non-None occurrences, in order, for every wrapper nesting; never for None, never for an omitted argument *)
+  Lemma ser_arg_log ser f : forall t nn top v log,
+    cfg_ser (scalar_cfg_of S (named_of t)) = Some f -> occ_ser S t nn v = Some log ->
+    exists w, ser_arg ser f t (negb nn) top v = Some (w, log).
   Proof.
-    unfold g_f10, arg_log. rewrite var_ser_cfg.
-    destruct (cfg_ser (scalar_cfg_of S (named_of t))) as [f|] eqn:Ec; intros Hg H.
-    - destruct t as [n|t'|t']; try discriminate. destruct t' as [n| |]; try discriminate.
-      simpl in *. rewrite Ec in H. destruct v; try discriminate; inversion H; reflexivity.
-    - symmetry. eapply occ_ser_no_ser; eauto.
+    induction t as [n|t' IH|t' IH]; intros nn top v log Hc H.
+    - simpl in *. rewrite Hc in H.
+      destruct v; try discriminate;
+        try (inversion H; subst; eexists; destruct nn, top; reflexivity).
+      destruct nn; [discriminate|]. inversion H; subst. eexists. reflexivity.
+    - simpl in *. destruct v; try discriminate.
+      + destruct nn; [discriminate|]. inversion H; subst. eexists. reflexivity.
+      + assert (Hl : exists rs, map_opt (ser_arg ser f t' true false) l = Some rs /\ List.concat (map snd rs) = log).
+        { revert log H. induction l as [|e r IHl]; intros log H.
+          - inversion H; subst. exists []. split; reflexivity.
+          - destruct (occ_ser S t' false e) as [a1|] eqn:E1; [|discriminate].
+            match type of H with
+            | match ?g with _ => _ end = _ => destruct g as [a2|] eqn:E2; [|discriminate]
+            end.
+            inversion H; subst.
+            destruct (IH false false e a1 Hc E1) as [w Hw]. simpl in Hw.
+            destruct (IHl a2 eq_refl) as [rs [Hrs Hcat]].
+            exists ((w, a1) :: rs). split; [simpl; rewrite Hw, Hrs; reflexivity|simpl; rewrite Hcat; reflexivity]. }
+        destruct Hl as [rs [Hrs Hcat]]. exists (PList (map fst rs)).
+        rewrite Hrs. simpl. rewrite Hcat. destruct nn, top; reflexivity.
+    - simpl in *. apply (IH true top v log Hc H).
+  Qed.
+
+  Lemma serialize_args ser t v log :
+    (forall f, var_ser S t = Some f -> String.eqb f "x" = false /\ is_item_name f = false) ->
+    occ_ser S t false v = Some log -> arg_log ser S t v = Some log.
+  Proof.
+    intros Hn H. unfold arg_log. pose proof (var_ser_cfg t) as Hv.
+    destruct (var_ser S t) as [f|] eqn:Ef.
+    - destruct (Hn f eq_refl) as [Hx Hi].
+      rewrite (eval_gen ser f) with (v := v).
+      + destruct (ser_arg_log ser f t false true v log (eq_sym Hv) H) as [w Hw]. simpl in Hw. simpl Nat.eqb.
+        rewrite Hw. reflexivity.
+      + intro d. destruct (String.eqb f (item_name d)) eqn:E; [|reflexivity].
+        apply String.eqb_eq in E. subst f. unfold is_item_name in Hi.
+        unfold item_name in Hi. simpl in Hi. destruct (z_to_string (Z.of_nat d)); discriminate.
+      + reflexivity.
+      + simpl. rewrite Hx. reflexivity.
+      + reflexivity.
+    - f_equal. symmetry. eapply occ_ser_no_ser; [symmetry; exact Hv|exact H].
+  Qed.
+
+  Lemma serialize_args_omitted ser t :
+    (forall f, var_ser S t = Some f -> String.eqb f "x" = false /\ is_item_name f = false) ->
+    is_nonnull t = false -> arg_log ser S t PUnset = Some [].
+  Proof.
+    intros Hn Ht. unfold arg_log. destruct (var_ser S t) as [f|] eqn:Ef; [|reflexivity].
+    destruct (Hn f eq_refl) as [Hx Hi].
+    rewrite (eval_gen ser f) with (v := PUnset).
+    - simpl Nat.eqb. rewrite ser_arg_unset; [reflexivity|exact Ht].
+    - intro d. destruct (String.eqb f (item_name d)) eqn:E; [|reflexivity].
+      apply String.eqb_eq in E. subst f. unfold is_item_name in Hi.
+      unfold item_name in Hi. simpl in Hi. destruct (z_to_string (Z.of_nat d)); discriminate.
+    - reflexivity.
+    - simpl. rewrite Hx. reflexivity.
+    - reflexivity.
   Qed.
 
   (* an unconfigured scalar (or one without parse / serialize) triggers no hook *)
